@@ -39,6 +39,9 @@ type Tamper struct {
 	F     func(data []byte) (out []byte, drop bool)
 	// All, if set, replaces F/To/Kind: it sees every message From emits in Round (a consistent multi-message strategy).
 	All func(to ID, kind string, data []byte) (out []byte, drop bool)
+	// AllR, if set, replaces everything above except From: it sees every message From emits in EVERY round (a strategy that
+	// stays consistent over several rounds).
+	AllR func(round int, to ID, kind string, data []byte) (out []byte, drop bool)
 }
 
 type Reject struct {
@@ -166,7 +169,9 @@ func Run(parties []Party, tamper *Tamper, obs Observer) *Result {
 			}
 			if o.b != nil {
 				data, drop := o.b, false
-				if tamper != nil && tamper.Round == k && tamper.From == s.ID() {
+				if tamper != nil && tamper.AllR != nil && tamper.From == s.ID() {
+					data, drop = tamper.AllR(k, 0, "b", data)
+				} else if tamper != nil && tamper.Round == k && tamper.From == s.ID() {
 					if tamper.All != nil {
 						data, drop = tamper.All(0, "b", data)
 					} else if tamper.Kind == "b" {
@@ -187,7 +192,9 @@ func Run(parties []Party, tamper *Tamper, obs Observer) *Result {
 			}
 			for to, data := range o.u {
 				drop := false
-				if tamper != nil && tamper.Round == k && tamper.From == s.ID() {
+				if tamper != nil && tamper.AllR != nil && tamper.From == s.ID() {
+					data, drop = tamper.AllR(k, to, "u", data)
+				} else if tamper != nil && tamper.Round == k && tamper.From == s.ID() {
 					if tamper.All != nil {
 						data, drop = tamper.All(to, "u", data)
 					} else if tamper.Kind == "u" && tamper.To == to {
